@@ -541,7 +541,7 @@ def _out_locals(f):
     return [0] + [i for i in range(1, f.argc + 1) if f.locals[i].startswith('&mut')]
 
 
-def ctx_honoured(rep, F, E, fns, rule='PROV-CTX'):
+def ctx_honoured(rep, F, E, fns, rule='PROV-CTX', allow_mirror=False):
     """for every given function with a Context parameter: the rounding routine(s) whose result
     reaches the return value receive mode <- ctx.rounding and precision <- ctx.precision"""
     from dataflow import backward_calls
@@ -587,8 +587,8 @@ def ctx_honoured(rep, F, E, fns, rule='PROV-CTX'):
                     precision = pv.f.get('precision', srcs)
                     if not any(s.startswith(P_CTX) for s in srcs):
                         problems.append('context argument does not derive from the context parameter: %s' % short(srcs))
-                    elif extra and not (extra <= MIRROR and extra == MIRROR):
-                        problems.append('context argument mixes in %s' % short(extra))
+                    elif extra and not (allow_mirror and extra == MIRROR):
+                        problems.append('context argument mixes in %s (the caller\'s context must be handed on unchanged)' % short(extra))
                     if 'precision' in pv.f and not all(s.startswith(P_CTX) for s in precision):
                         problems.append('precision of the forwarded context derives from %s' % short(precision))
                 elif kind == 'mode':
